@@ -4,6 +4,7 @@ package main
 import (
 	"fmt"
 	"go/types"
+	"sync/atomic"
 
 	"golang.org/x/tools/go/ssa"
 )
@@ -228,13 +229,14 @@ type State struct {
 	ghost     map[string]Value
 	trace     []string
 	depth     int // fork depth
+	unwind    int
+	panicsOn  bool
 }
 
 func (st *State) top() *Frame { return st.frames[len(st.frames)-1] }
 
 func (e *Engine) newGen() int64 {
-	e.genCtr++
-	return e.genCtr
+	return atomic.AddInt64(&e.genCtr, 1)
 }
 
 func (e *Engine) newObj(st *State, o *Object) int {
@@ -288,6 +290,8 @@ func (e *Engine) clone(st *State) *State {
 		clock:     st.clock,
 		trace:     append([]string(nil), st.trace...),
 		depth:     st.depth + 1,
+		unwind:    st.unwind,
+		panicsOn:  st.panicsOn,
 	}
 	st.depth++
 	for k, v := range st.globals {
